@@ -139,7 +139,7 @@ impl Prop for Unrelated {
         "C19/unrelated".into()
     }
     fn rule(&self) -> String {
-        "accepted multi-module program P from the rich generator, an observed module M, and a change restricted to modules outside M's transitive `use` closure: add a fresh module (in a fresh directory, at the top, below M's own path or next to M; sorting before or after everything; often defining short names M uses or types named like M's members or built-ins; sometimes with extern values, rust backend text, impl blocks of its own, and impl blocks for a type of M that it imports but does not define), add items (types, enums, extern types, vftable owners named like things M uses) to an unrelated module, remove an unrelated module nobody imports, remove the last item of an unrelated leaf module, reorder the modules. Oracle: when P and P+change are both accepted, <M>.rs is byte-identical. Pairs where P+change is rejected are discarded and counted. Non-trivial: M has a cross-module reference and the change touches a module that shares a short type name with something M's closure uses".into()
+        "accepted multi-module program P from the rich generator, an observed module M, and a change restricted to modules outside M's transitive `use` closure: add a fresh module (in a fresh directory, at the top, below M's own path or next to M; sorting before or after everything; often defining short names M uses or types named like M's members or built-ins; sometimes with extern values, rust backend text, impl blocks of its own, a vftable block copied verbatim from a type M uses together with own definitions of the type names it mentions, and impl blocks for a type of M that it imports but does not define), add items (types, enums, extern types, vftable owners named like things M uses) to an unrelated module, remove an unrelated module nobody imports, remove the last item of an unrelated leaf module, reorder the modules. Oracle: when P and P+change are both accepted, <M>.rs is byte-identical. Pairs where P+change is rejected are discarded and counted. Non-trivial: M has a cross-module reference and the change touches a module that shares a short type name with something M's closure uses".into()
     }
     fn gen(&self, t: &mut Tape) -> Case {
         let w = if t.chance(1, 2) { 8 } else { 4 };
@@ -246,6 +246,44 @@ impl Prop for Unrelated {
                                     cc: None,
                                 }],
                             });
+                        }
+                    }
+                    // a vftable block copied word for word from a type of M's closure, with types of its own under
+                    // the names the signatures mention (same text, other meaning)
+                    if t.chance(1, 3) {
+                        let owners: Vec<TypeDef> = cl.iter().flat_map(|&i| p1.mods[i].types().filter(|t| t.vft.is_some()).cloned().collect::<Vec<_>>()).collect();
+                        if !owners.is_empty() {
+                            let src = owners[t.below(owners.len() as u64) as usize].clone();
+                            let v = src.vft.clone().unwrap();
+                            let mut mentioned: BTreeSet<String> = BTreeSet::new();
+                            for f in &v.funcs {
+                                for a in &f.args {
+                                    if let Arg::Named(_, ty) = a {
+                                        if let Some(n) = ty.leaf() {
+                                            mentioned.insert(n.to_string());
+                                        }
+                                    }
+                                }
+                                if let Some(n) = f.ret.as_ref().and_then(|t| t.leaf()) {
+                                    mentioned.insert(n.to_string());
+                                }
+                            }
+                            for n in mentioned {
+                                let builtin = crate::refmodel::builtin_size(&n).is_some() || n == "void";
+                                if !builtin && !m.items.iter().any(|i| i.name() == n) && !m.ext_types.iter().any(|e| e.name == n) {
+                                    m.items.push(simple_type(&n, 2 * t.below(6), w));
+                                    shares = true;
+                                }
+                            }
+                            let owner_name = format!("Zvt{fresh_n}");
+                            if !m.items.iter().any(|i| i.name() == owner_name) {
+                                m.items.push(Item::Type(TypeDef {
+                                    vis: true,
+                                    name: owner_name,
+                                    vft: Some(v),
+                                    ..Default::default()
+                                }));
+                            }
                         }
                     }
                     // an impl block for a type of the observed module, which the fresh module imports but does
